@@ -137,8 +137,10 @@ def run(argv, cwd, tag="run", timeout=60.0, env_extra=None, stdin_path=None, pre
             a = _group_state(pid)
             time.sleep(1.5)
             b = _group_state(pid)
-            alive = [p for p in b if p in a]
-            if alive and all(b[p][0] in "SI" for p in alive) and all(a[p][1] == b[p][1] for p in alive) and set(a) == set(b):
+            # processes that still exist and are not zombies (a dead, unreaped child cannot make progress)
+            alive = [p for p in b if p in a and b[p][0] not in "ZX"]
+            if alive and all(b[p][0] in "SI" for p in alive) and all(a[p][1] == b[p][1] for p in alive) \
+                    and {p for p in a if a[p][0] not in "ZX"} == set(alive):
                 res.deadlock = True
             else:
                 res.deadlock = False
